@@ -116,13 +116,18 @@ def register_wfa(reg):
     reg.add(Contract(
         file=REALIGN, func="wfa_alignment", params=dict(seq_batch=ListT(BatchItem), qu=ListT(Opt(PAL))), modifies=["qu"],
         types=dict(WavefrontAligner=Aligner, PriorityAlignment=PAL, STR=STR),
-        ghost=dict(MS=MapT(INT, INT), TS=MapT(INT, INT), ct=ListT(CigTup), q0=INT),
+        ghost=dict(MS=MapT(INT, INT), TS=MapT(INT, INT), ct=ListT(CigTup), q0=INT, RM=MapT(INT, INT), RB=MapT(INT, INT), RC=MapT(INT, STR)),
+        ghost_at={"after:gaf_line.tags['cg:Z:'] = cigar": "RM[it1 - 1] = match\nRB[it1 - 1] = cigar_len\nRC[it1 - 1] = cigar"},
         locals=dict(cigar=LINE, out_string=LINE, match=INT, mismatch=INT, cigar_len=INT, ins=INT, deletion=INT, soft_clip=INT),
         spec_funcs=WFA_M, alias_ok=["gaf_line"],
         requires=["q0 == len(qu)",
                   "forall(lambda j, t: implies(0 <= j < len(seq_batch) and 0 <= t < len(keys(seq_batch[j][0].tags)), keys(seq_batch[j][0].tags)[t] in seq_batch[j][0].tags))"],
         loops={
-            1: Loop(index="it1", fingerprint="for gaf_line, ref, query, prior_counter in seq_batch", modifies=["MS", "TS", "ct"], invariant={
+            1: Loop(index="it1", fingerprint="for gaf_line, ref, query, prior_counter in seq_batch", modifies=["MS", "TS", "ct"],
+                    pres_from={"short-records-length": ["tags-printed", "number-of-fields", "loop1:short-records-length", "loop1:one-item-per-record"],
+                               "short-records-tags-in-place-cigar-replaced": ["tags-printed", "cigar-replaced-in-place", "number-of-fields",
+                                                                              "loop1:short-records-tags-in-place-cigar-replaced", "loop1:one-item-per-record"]},
+                    invariant={
                 "one-item-per-record": "len(qu) == q0 + it1",
                 "all-items-so-far-are-results": "forall(lambda k: implies(q0 <= k < len(qu), not is_none(qu[k])))",
                 "earlier-items-kept": "forall(lambda k: implies(0 <= k < q0, qu[k] == old(qu)[k]))",
@@ -134,6 +139,12 @@ def register_wfa(reg):
                 "long-records-pass-through": "forall(lambda j: implies(0 <= j < it1 and big(j), val(qu[q0 + j]).seq[9] == str(rec(j).residue_matches) and "
                                              "val(qu[q0 + j]).seq[10] == str(rec(j).alignment_block_length) and len(val(qu[q0 + j]).seq) == 12 + len(keys(rec(j).tags)) and "
                                              "forall(lambda t: implies(0 <= t < len(keys(rec(j).tags)), val(qu[q0 + j]).seq[12 + t] == cat(keys(rec(j).tags)[t], rec(j).tags[keys(rec(j).tags)[t]])))))",
+                # records of at most 60,000 read bases are re-aligned: RM / RB / RC = match total, block length, cigar string of the aligner's answer for
+                # record j (ghost, recorded where the code has just computed them; 'match-count-is-the-sum-of-=-runs' below ties them to the cigartuples)
+                "short-records-new-tallies": "forall(lambda j: implies(0 <= j < it1 and not big(j), val(qu[q0 + j]).seq[9] == str(RM[j]) and val(qu[q0 + j]).seq[10] == str(RB[j])))",
+                "short-records-length": "forall(lambda j: implies(0 <= j < it1 and not big(j), len(val(qu[q0 + j]).seq) == 12 + len(keys(rec(j).tags)) + ite('cg:Z:' in rec(j).tags, 0, 1)))",
+                "short-records-tags-in-place-cigar-replaced": "forall(lambda j, t: implies(0 <= j < it1 and not big(j) and 0 <= t < len(keys(rec(j).tags)), val(qu[q0 + j]).seq[12 + t] == "
+                                                              "cat(keys(rec(j).tags)[t], ite(keys(rec(j).tags)[t] == 'cg:Z:', RC[j], rec(j).tags[keys(rec(j).tags)[t]]))))",
             }),
             2: Loop(index="it2", fingerprint="for k in gaf_line.tags.keys()", ghost_before="L12 = out_string", invariant={
                 "len": "len(out_string) == 12 + it2", "prefix": "forall(lambda f: implies(0 <= f < 12, out_string[f] == L12[f]))",
@@ -153,7 +164,18 @@ def register_wfa(reg):
             "MS[0] == 0 and TS[0] == 0",
             "forall(lambda i: implies(0 <= i < len(res.cigartuples), MS[i + 1] == MS[i] + ite(res.cigartuples[i][0] == 0, res.cigartuples[i][1], 0) and "
             "TS[i + 1] == TS[i] + res.cigartuples[i][1]))"]},
-        assert_at={"before:out_string = f'{gaf_line.query_name}\\t{gaf_line.query_length}\\t{gaf_line.query_start}\\t{gaf_line.query_end}\\t{gaf_line.strand}\\t{gaf_line.path}\\t{gaf_line.path_length}\\t{gaf_line.path_start}\\t{gaf_line.path_end}\\t{match}": {
+        assert_at={"before:qu.put(PriorityAlignment(prior_counter, out_string": {
+            "tags-printed": "len(out_string) == 12 + len(keys(gaf_line.tags)) and forall(lambda t: implies(0 <= t < len(keys(gaf_line.tags)), "
+                            "out_string[12 + t] == cat(keys(gaf_line.tags)[t], gaf_line.tags[keys(gaf_line.tags)[t]])))"},
+                   "after:gaf_line.tags['cg:Z:'] = cigar": {
+            # consequences of the ordered-dict update alone: proved from the quantifier-free path facts
+            "cigar-replaced-in-place": {"expr": "forall(lambda t: implies(0 <= t < len(keys(rec(it1 - 1).tags)), keys(gaf_line.tags)[t] == keys(rec(it1 - 1).tags)[t] and "
+                                                "gaf_line.tags[keys(rec(it1 - 1).tags)[t]] == ite(keys(rec(it1 - 1).tags)[t] == 'cg:Z:', cigar, rec(it1 - 1).tags[keys(rec(it1 - 1).tags)[t]])))",
+                                        "from": ["loop1:one-item-per-record"]},
+            "number-of-fields": {"expr": "len(keys(gaf_line.tags)) == len(keys(rec(it1 - 1).tags)) + ite('cg:Z:' in rec(it1 - 1).tags, 0, 1)", "from": ["loop1:one-item-per-record"]},
+            "cigar-key-position": "gaf_line.tags['cg:Z:'] == cigar and implies('cg:Z:' not in rec(it1 - 1).tags, len(keys(gaf_line.tags)) == len(keys(rec(it1 - 1).tags)) + 1 and "
+                                  "keys(gaf_line.tags)[len(keys(rec(it1 - 1).tags))] == 'cg:Z:')"},
+                   "before:cigar = aligner.cigarstring.replace(": {
             "match-count-is-the-sum-of-=-runs": "match == MS[len(ct)] and same(ct, res.cigartuples)",
             "block-length-is-the-sum-of-all-runs": "cigar_len == TS[len(ct)]"}},
         ensures={
